@@ -3,6 +3,8 @@ CONSTANTS
   Classes <- Classes4
   Outs <- OutsC03
   Durs = {1}
+  CDurs <- ZeroDur
+  EDurs <- SomeDur
   Rets <- RetsOne
   Advs <- AdvsExact
   Decs <- DecsAll
